@@ -1796,6 +1796,16 @@ func (e *lfEngine) execLoop(fr *lfFrame, st *lfState, l *Loop, from *ssa.BasicBl
 			if lo, hi, ok := intRange(pi.phi.Type()); ok {
 				st.cons = append(st.cons, geq(pi.sym, linConst(lo)), leq(pi.sym, linConst(hi)))
 			}
+			// constant stride: when every back edge carries phi+c (c ≥ 2) the head value is
+			// entry + c·k for the iteration count k ≥ 0 (word-sized integers; overflow is
+			// excluded by the engine's standing assumption on int arithmetic)
+			if c, ok := constStride(pi.phi, l); ok && c >= 2 {
+				if ent, isI := pi.entry.(vInt); isI && ent.B == nil {
+					kq := linSym(e.newSym(name(pi) + "@iter"))
+					eq := pi.sym.add(ent.E, -1).add(kq, -c)
+					st.cons = append(st.cons, geq(kq, linConst(0)), Cons{eq}, Cons{eq.scale(-1)})
+				}
+			}
 		} else if pi.isSl {
 			s := e.newSym("len(" + name(pi) + ")@loop")
 			pi.sym = linSym(s)
@@ -1974,6 +1984,45 @@ func (e *lfEngine) execLoop(fr *lfFrame, st *lfState, l *Loop, from *ssa.BasicBl
 	lc.onBack = func(*lfFrame, *lfState, *ssa.BasicBlock) {}
 	f1.active = append(f1.active, lc)
 	e.execFrom(f1, s1, h, nil, firstNonPhi, k)
+}
+
+// constStride: phi is a word-sized integer whose every in-loop incoming edge is
+// phi + c for one constant c.
+func constStride(ph *ssa.Phi, l *Loop) (int64, bool) {
+	bt, ok := ph.Type().Underlying().(*types.Basic)
+	if !ok {
+		return 0, false
+	}
+	switch bt.Kind() {
+	case types.Int, types.Int64, types.Uint, types.Uint64, types.Uintptr:
+	default:
+		return 0, false
+	}
+	var stride int64
+	n := 0
+	for j, p := range ph.Block().Preds {
+		if !l.Blocks[p] {
+			continue
+		}
+		bo, ok := ph.Edges[j].(*ssa.BinOp)
+		if !ok || bo.Op != token.ADD {
+			return 0, false
+		}
+		var k int64
+		var isK bool
+		switch {
+		case bo.X == ssa.Value(ph):
+			k, isK = constInt(bo.Y)
+		case bo.Y == ssa.Value(ph):
+			k, isK = constInt(bo.X)
+		}
+		if !isK || (n > 0 && k != stride) {
+			return 0, false
+		}
+		stride = k
+		n++
+	}
+	return stride, n > 0
 }
 
 func (e *lfEngine) substPhis(c Cons, _ interface{}) Cons { return c }
